@@ -83,7 +83,7 @@ Definition judge_det (c : list (str * ddef) * cval * outcome plainsec * outcome 
   let d1m := obind r m_plain in
   let d2m := obind d1m (fun x => obind (m_load (fst x) (snd x)) m_plain) in
   let agree := out_eqb plainsec_eqb d1m d1 && out_eqb plainsec_eqb d2m d2 in
-  let dom := match r with Ok r' => dom_dets r' | _ => false end in
+  let dom := match r, d1m with Ok r', Ok _ => dom_dets r' | _, _ => false end in
   bits agree (spec_rt d1 d2 q1 q2) dom (existsb (fun nd => nontriv_def (snd nd)) defs).
 
 (* suite hist: the object state after one pipeline transformation (read from the implementation:
@@ -115,15 +115,21 @@ Fixpoint shape_of (f : N) (l : list (N * N)) : N :=
   match l with [] => 0 | (k, s) :: t => if N.eqb k f then s else shape_of f t end.
 
 (* kind: 0 rule, 1 correlation rule, 2 filter; custom: indices (>= 100) of custom attributes in input order *)
+(* assigning to a key that is already in a dict keeps its position *)
+Fixpoint dedup (seen l : list N) : list N :=
+  match l with
+  | [] => []
+  | x :: r => if existsb (N.eqb x) seen then dedup seen r else x :: dedup (x :: seen) r
+  end.
 Definition meta_keys (kind : N) (shapes : list (N * N)) (custom : list N) : list N :=
-  [F_title]
+  dedup [] ([F_title]
   ++ filter (fun f => negb (N.eqb (shape_of f shapes) 0)) [F_id; F_status; F_level; F_author; F_description; F_name]
   ++ filter (fun f => N.eqb (shape_of f shapes) 2) [F_references; F_fields; F_falsepositives; F_scope]
   ++ filter (fun f => N.eqb (shape_of f shapes) 2) [F_tags]
   ++ filter (fun f => negb (N.eqb (shape_of f shapes) 0)) [F_date; F_modified]
   ++ custom
   ++ (if N.eqb kind 0 then [F_logsource; F_detection]
-      else if N.eqb kind 1 then [F_correlation] else [F_logsource; F_filter]).
+      else if N.eqb kind 1 then [F_correlation] else [F_logsource; F_filter])).
 
 (* suite doc: (kind, shapes, custom, keys of impl to_dict in order, canonical JSON of to_dict, of the
    to_dict of the reloaded object, of the to_dict after a YAML dump/load, queries of the three objects) *)
